@@ -184,11 +184,12 @@ def mixes_str_bytes(*names):
 
 OPS_ELEMENT = ['series.reindex', 'series.shift', 'series.assign.iloc', 'series.assign.loc', 'series.fillna', 'frame.reindex', 'frame.shift',
                'frame.assign.iloc', 'frame.fillna', 'frame.from_records', 'frame.from_dict_records', 'index.append', 'frame.assign.bloc',
+               'py.series', 'py.from_records', 'py.from_dict_records', 'py.from_dict', 'py.framego-setitem-list', 'py.series-assign-list', 'py.from_items',
                'frame2d.assign.iloc', 'frame2d.assign.column', 'frame2d.reindex', 'frame2d.shift', 'frame2d.fillna', 'frame2d.assign.bloc']
 OPS_PAIR = ['series.from_concat', 'frame.from_concat0', 'frame.from_concat1', 'frame.assign.col-array', 'frame.assign.col-series', 'frame.insert_after',
             'frame.values-row', 'frame.iloc-row', 'frame.iter_array1', 'frame.from_items', 'series.from_overlay', 'frame.from_records-rows',
             'frame.relabel-keep-dtype', 'frame.iter_tuple1', 'frame.fillna_forward1', 'frame.fillna_backward1', 'frame.assign-rows-frame-into-2d-block',
-            'frame.assign-rows-frame-into-1d-blocks']
+            'frame.assign-rows-frame-into-1d-blocks', 'framego.setitem-then-rows', 'framego.extend-then-rows', 'framego.extend_items-then-rows']
 
 
 def cases(tier):
@@ -204,14 +205,14 @@ def universe(tier):
     return {'prototypes': {k: str(v.dtype) for k, v in PROTOS.items()}, 'elements': list(ELEMENTS), 'element_ops': OPS_ELEMENT, 'pair_ops': OPS_PAIR}
 
 
-def compare(ctx, tag, pairs, info, left, right):
+def compare(ctx, tag, pairs, info, left, right, collapse=True):
     '''pairs: iterable of (supplied, stored).'''
     for sup, sto in pairs:
         v = verdict(sup, sto)
         ctx.outcome(v)
         if v != 'ok':
             kl, kr = kind_of(left), kind_of(right)
-            if v in ('int-to-float-inexact', 'int-to-complex-inexact') and ('>2**' in kl or '>2**' in kr):
+            if collapse and v in ('int-to-float-inexact', 'int-to-complex-inexact') and ('>2**' in kl or '>2**' in kr):
                 # one root cause whatever the operation: dtype resolution follows NumPy promotion (int64/uint64 + float -> float64,
                 # uint64 + signed -> float64), which cannot hold integers above 2**53
                 tag = 'dtype-resolution'
@@ -328,6 +329,33 @@ def run_elem(case, ctx):
             elif opname == 'frame.from_dict_records':
                 r = sf.Frame.from_dict_records([dict(p=orig[0], q=1), dict(p=v, q=2)])
                 pairs = zip([orig[0], v], list(columns_of(r)[0]))
+            elif opname.startswith('py.'):
+                # plain Python values (what a user types), in both orders and with the element first / last of three
+                py = [o.item() if hasattr(o, 'item') and proto.dtype.kind not in 'mM' else o for o in orig]
+                ok_all = True
+                for oi, seq in enumerate(([py[0], v], [v, py[0]], [py[0], py[1], v], [v, py[1], py[0]])):
+                    sub = opname[3:]
+                    if sub == 'series':
+                        got = list(sf.Series(seq).values)
+                    elif sub == 'from_records':
+                        got = list(columns_of(sf.Frame.from_records([[x, 1] for x in seq], columns=('p', 'q')))[0])
+                    elif sub == 'from_dict_records':
+                        got = list(columns_of(sf.Frame.from_dict_records([dict(p=x, q=1) for x in seq]))[0])
+                    elif sub == 'from_dict':
+                        got = list(columns_of(sf.Frame.from_dict(dict(p=seq, q=list(range(len(seq))))))[0])
+                    elif sub == 'from_items':
+                        got = list(columns_of(sf.Frame.from_items((('p', seq), ('q', list(range(len(seq)))))))[0])
+                    elif sub == 'framego-setitem-list':
+                        g = sf.FrameGO(index=range(len(seq)))
+                        g['q'] = list(range(len(seq)))
+                        g['p'] = seq
+                        got = list(columns_of(g)[1])
+                    else:
+                        s0 = sf.Series([0] * len(seq))
+                        got = list(s0.assign.iloc[list(range(len(seq)))](seq).values)
+                    ok_all = compare(ctx, 'untyped-python-values', zip(seq, got), dict(info, order=oi, values=repr(seq)), pname, ename, collapse=False) and ok_all
+                    ctx.transition()
+                continue
             elif opname == 'index.append':
                 if is_missing(v) or is_missing(orig[1]) or is_missing(orig[0]):
                     continue  # NaN labels are outside the claims on indices
@@ -434,6 +462,25 @@ def run_pair(case, ctx):
                 r = tgt.assign.loc[['y'], ['p', 'q']](val)
                 rc = columns_of(r)
                 pairs = [(1, rc[0][0]), (la[0], rc[0][1]), (3, rc[1][0]), (lb[0], rc[1][1])]
+            elif opname.startswith('framego.'):
+                # a grow-only Frame built column by column, then read row-wise (rows consolidate every column into one array)
+                g = sf.FrameGO.from_items((('p', a),), index=('x', 'y'))
+                if opname == 'framego.setitem-then-rows':
+                    g['q'] = b
+                    g['r'] = a
+                elif opname == 'framego.extend-then-rows':
+                    g.extend(sf.Frame.from_items((('q', b), ('r', a)), index=('x', 'y')))
+                else:
+                    g.extend_items((('q', b), ('r', a)))
+                exp = [la[0], lb[0], la[0], la[1], lb[1], la[1]]
+                v = g.values
+                rows = list(g.iter_array(axis=1))
+                tups = list(g.iter_tuple(axis=1))
+                gt = columns_of(g.transpose())
+                pairs = (list(zip(exp, [v[0, 0], v[0, 1], v[0, 2], v[1, 0], v[1, 1], v[1, 2]])) + list(zip(exp[:3], list(g.iloc[0].values)))
+                         + list(zip(exp[3:], list(g.iloc[1].values))) + list(zip(exp, list(rows[0]) + list(rows[1]))) + list(zip(exp, list(tups[0]) + list(tups[1])))
+                         + list(zip(exp[:3], [c[0] for c in (gt[0],)] and list(gt[0]))) + list(zip(exp[3:], list(gt[1]))))
+                untouched(ctx, opname, (str(a.dtype), str(b.dtype), str(a.dtype)), tuple(str(c.dtype) for c in columns_of(g)), info, pname, qname)
             elif opname == 'frame.relabel-keep-dtype':
                 r = fab.relabel(columns=('u', 'v')).rename('nn').reindex(index=('y', 'x'))
                 pairs = list(zip(la[::-1], list(columns_of(r)[0]))) + list(zip(lb[::-1], list(columns_of(r)[1])))
